@@ -160,30 +160,17 @@ impl AggregateExecutionEngine {
             }
             Aggregate::Min(ref expression) | Aggregate::Max(ref expression) => {
                 let column_value = expression_execution_engine.evaluate(expression)?;
+                let group_value = self.get_group_value(group_key.clone(), aggregate_index, || Ok(Value::Null))?;
                 if column_value.is_not_null() {
-                    let group_value = self.get_group_value(group_key.clone(), aggregate_index, || Ok(column_value.clone()))?;
-
-                    match aggregate {
-                        Aggregate::Min(_) => {
-                            group_value.modify_same_type_numeric_nullable(
-                                &column_value,
-                                |x, y| { *x = (*x).min(y) },
-                                |x, y| { *x = (*x).min(y) },
-                                |x, y| { *x = (*x).min(y) }
-                            );
-                        }
-                        Aggregate::Max(_) => {
-                            group_value.modify_same_type_numeric_nullable(
-                                &column_value,
-                                |x, y| { *x = (*x).max(y) },
-                                |x, y| { *x = (*x).max(y) },
-                                |x, y| { *x = (*x).max(y) }
-                            );
-                        }
+                    let replace = group_value.is_null() || match aggregate {
+                        Aggregate::Min(_) => column_value < *group_value,
+                        Aggregate::Max(_) => column_value > *group_value,
                         _ => { unimplemented!(); }
                     };
-                } else {
-                    self.get_group_value(group_key.clone(), aggregate_index, || Ok(Value::Null))?;
+
+                    if replace {
+                        *group_value = column_value;
+                    }
                 }
             }
             Aggregate::Sum(ref expression)
